@@ -353,14 +353,80 @@ ARITY = {n: len((NUMERIC.get(n) or SAT.get(n))[1]) for n in OPS}
 # ------------------------------------------------------------------------------------------------
 # store objects
 # ------------------------------------------------------------------------------------------------
+class SparseBytes(object):
+    """zero-initialised byte array of any length that stores only the 64 KiB chunks ever written (slice get / set with step 1,
+    len, extend): the model side of multi-gigabyte linear memories"""
+    CH = 1 << 16
+
+    def __init__(self, n):
+        self.n = n
+        self.chunks = {}
+
+    def __len__(self):
+        return self.n
+
+    def _range(self, key):
+        if isinstance(key, slice):
+            a, b, st = key.indices(self.n)
+            assert st == 1
+            return a, max(b, a)
+        if key < 0:
+            key += self.n
+        if not 0 <= key < self.n:
+            raise IndexError(key)
+        return key, key + 1
+
+    def __getitem__(self, key):
+        a, b = self._range(key)
+        out = bytearray(b - a)
+        p = a
+        while p < b:
+            c, o = divmod(p, self.CH)
+            k = min(self.CH - o, b - p)
+            ch = self.chunks.get(c)
+            if ch is not None:
+                out[p - a:p - a + k] = ch[o:o + k]
+            p += k
+        return out if isinstance(key, slice) else out[0]
+
+    def __setitem__(self, key, val):
+        a, b = self._range(key)
+        if not isinstance(key, slice):
+            val = bytes([val])
+        val = bytes(val)
+        assert len(val) == b - a
+        p = a
+        while p < b:
+            c, o = divmod(p, self.CH)
+            k = min(self.CH - o, b - p)
+            ch = self.chunks.get(c)
+            if ch is None:
+                ch = self.chunks[c] = bytearray(self.CH)
+            ch[o:o + k] = val[p - a:p - a + k]
+            p += k
+
+    def extend(self, more):
+        assert not any(more[:1]) and len(more) % self.CH == 0
+        self.n += len(more)
+
+    def crc(self):
+        z = 0
+        zero = bytes(self.CH)
+        for c in range((self.n + self.CH - 1) // self.CH):
+            z = zlib.crc32(bytes(self.chunks.get(c, zero))[:min(self.CH, self.n - c * self.CH)], z)
+        return z
+
+
 class Memory(object):
     def __init__(self, minp, maxp=None, shared=False):
-        self.data = bytearray(minp * PAGE)
+        self.data = bytearray(minp * PAGE) if minp < 8192 else SparseBytes(minp * PAGE)
         self.pages = minp
         self.max = maxp
         self.shared = shared
 
     def crc(self):
+        if isinstance(self.data, SparseBytes):
+            return self.data.crc() & M32
         return zlib.crc32(bytes(self.data)) & M32
 
 
